@@ -247,9 +247,11 @@ macro_rules! br_for {
     };
 }
 
+#[cfg(feature = "m_bitreader")]
 pub mod be {
     br_for!(BE);
 }
+#[cfg(feature = "m_bitreader")]
 pub mod le {
     br_for!(LE);
 }
